@@ -81,6 +81,9 @@ type vfWorld struct {
 	watch      *vfWatcher
 	variant    string
 	cryptoSeed uint64
+	twinB      bool     // second (perturbed) execution of a twin run
+	twinRef    []string // transcript of the first execution
+	transcript []string
 	c08Loaded  []string // C08: entries of the authenticated-e-mails file version currently loaded by the proxy
 	panicProp  string   // property a handler panic is attributed to in this run (default C19; C13/C14 under store/IdP faults)
 }
